@@ -26,9 +26,13 @@ def generate(pid, src_root=None):
             return ok, notes
     imports = "\n".join("import " + m for m in srcspecs.IMPORTS.get(pid, ["ArimModel.Src"]))
     try:
-        txt, notes = py2lean.translate(specs, Path(src_root) if src_root else SRC, HEADER.format(imports=imports))
+        custom = getattr(srcspecs, "CUSTOM", {}).get(pid)
+        if custom is not None:
+            txt, notes = custom(Path(src_root) if src_root else SRC, HEADER.format(imports=imports))
+        else:
+            txt, notes = py2lean.translate(specs, Path(src_root) if src_root else SRC, HEADER.format(imports=imports))
         ok = True
-    except (py2lean.TranslateError, SyntaxError, OSError) as e:
+    except (py2lean.TranslateError, srcspecs.py2lean_cache.TranslateError, SyntaxError, OSError) as e:
         msg = str(e).replace("-/", "- /")
         txt = (HEADER.format(imports=imports) + f"\n/- the translator could not read the source: {msg} -/\n"
                "#eval (show Nat from \"py2lean: translation failed, see the comment above\")\n")
